@@ -98,6 +98,22 @@ pub fn run(ctx: &mut Ctx) {
         let rows: Vec<Val> = (0..nrows).map(|_| arrgen::gen_record(&mut rng, &fields, &mut inj)).collect();
         backend_case(ctx, &fields, &rows, if inject { "injected" } else { "valid" });
     }
+    // directed: time zones that are accepted as UTC without being spelled "UTC" (the documentation writes Some("Utc")): the arrays and
+    // the record batch must carry the GIVEN field, in every back end, at the top level and below parents
+    {
+        use marrow::datatypes::TimeUnit;
+        let mut rng = ctx.rng.fork();
+        for tz in ["UTC", "Utc", "utc"] { for unit in [TimeUnit::Second, TimeUnit::Millisecond, TimeUnit::Microsecond, TimeUnit::Nanosecond] {
+            let leaf = DataType::Timestamp(unit, Some(tz.to_string()));
+            for parent in 0..8usize { for nullable in [false, true] {
+                if parent > 0 && !(unit == TimeUnit::Millisecond) { continue; }
+                let Some((field, _)) = crate::c18::under_parent(parent, &leaf, nullable) else { continue };
+                let mut none = Inject { countdown: -1, what: None };
+                let rows: Vec<Val> = (0..3).map(|_| Val::Struct(vec![("c".to_string(), arrgen::gen_val(&mut rng, &field, &mut none))], 0)).collect();
+                backend_case(ctx, std::slice::from_ref(&field), &rows, "valid");
+            } }
+        } }
+    }
     // directed: zero-sized fixed types at the top level and below every kind of parent, 0 and 2 rows
     let mut rng = ctx.rng.fork();
     for leaf in [DataType::FixedSizeBinary(0), DataType::FixedSizeList(Box::new(Field { name: "element".into(), data_type: DataType::Int8, nullable: false, metadata: Default::default() }), 0)] {
